@@ -324,6 +324,10 @@ class Rule_CV11(BaseRule):
                         sp.is_type("function_contents")
                     ).children(sp.is_type("bracketed"))
                     convert_content = self._get_children(bracketed)
+                    # NOTE: Some dialects parse unusual casts (e.g. to a row type)
+                    # into a single element. There's nothing to compare or fix.
+                    if len(convert_content) < 2:
+                        return None
                     # We only care about 2-arguments convert
                     # some dialects allow an optional 3rd argument e.g TSQL
                     # which cannot be rewritten into CAST
@@ -363,6 +367,10 @@ class Rule_CV11(BaseRule):
                 ).children(sp.is_type("bracketed"))
                 if current_type_casting_style == "cast":
                     cast_content = self._get_children(bracketed)
+                    # NOTE: Some dialects parse unusual casts (e.g. to a row type)
+                    # into a single element. There's nothing to compare or fix.
+                    if len(cast_content) < 2:
+                        return None
                     if len(cast_content) > 2:
                         return None
 
@@ -388,6 +396,10 @@ class Rule_CV11(BaseRule):
                 if current_type_casting_style == "cast":
                     # Get the content of CAST
                     cast_content = self._get_children(bracketed)
+                    # NOTE: Some dialects parse unusual casts (e.g. to a row type)
+                    # into a single element. There's nothing to compare or fix.
+                    if len(cast_content) < 2:
+                        return None
                     if len(cast_content) > 2:
                         return None
 
@@ -398,6 +410,10 @@ class Rule_CV11(BaseRule):
                     )
                 elif current_type_casting_style == "convert":
                     convert_content = self._get_children(bracketed)
+                    # NOTE: Some dialects parse unusual casts (e.g. to a row type)
+                    # into a single element. There's nothing to compare or fix.
+                    if len(convert_content) < 2:
+                        return None
                     if len(convert_content) > 2:
                         return None
 
@@ -435,6 +451,10 @@ class Rule_CV11(BaseRule):
                         sp.is_type("function_contents")
                     ).children(sp.is_type("bracketed"))
                     convert_content = self._get_children(bracketed)
+                    # NOTE: Some dialects parse unusual casts (e.g. to a row type)
+                    # into a single element. There's nothing to compare or fix.
+                    if len(convert_content) < 2:
+                        return None
 
                     fixes = self._cast_fix_list(
                         context,
@@ -463,6 +483,10 @@ class Rule_CV11(BaseRule):
                         sp.is_type("function_contents")
                     ).children(sp.is_type("bracketed"))
                     cast_content = self._get_children(bracketed)
+                    # NOTE: Some dialects parse unusual casts (e.g. to a row type)
+                    # into a single element. There's nothing to compare or fix.
+                    if len(cast_content) < 2:
+                        return None
                     fixes = self._convert_fix_list(
                         context,
                         cast_content[1],
@@ -484,6 +508,10 @@ class Rule_CV11(BaseRule):
                 ).children(sp.is_type("bracketed"))
                 if current_type_casting_style == "cast":
                     cast_content = self._get_children(bracketed)
+                    # NOTE: Some dialects parse unusual casts (e.g. to a row type)
+                    # into a single element. There's nothing to compare or fix.
+                    if len(cast_content) < 2:
+                        return None
                     fixes = self._shorthand_fix_list(
                         context,
                         cast_content[0],
@@ -491,6 +519,10 @@ class Rule_CV11(BaseRule):
                     )
                 elif current_type_casting_style == "convert":
                     convert_content = self._get_children(bracketed)
+                    # NOTE: Some dialects parse unusual casts (e.g. to a row type)
+                    # into a single element. There's nothing to compare or fix.
+                    if len(convert_content) < 2:
+                        return None
                     fixes = self._shorthand_fix_list(
                         context,
                         convert_content[1],
